@@ -5,7 +5,7 @@ cd "$(dirname "$0")/.."
 for id in "$@"; do
   pid=${id%%_*}
   if ! git -C /repo diff --quiet; then echo "$id: /repo has uncommitted changes, refusing"; exit 2; fi
-  if git -C /repo apply "seeded/$id/patch.diff"; then
+  if git -C /repo apply "$PWD/seeded/$id/patch.diff"; then
     out=$(./check "$pid" --tier quick 2>&1 | grep -E "^(VIOLATION|\[C)" | head -3 | tr '\n' ' ' | cut -c1-400)
     rc=$?
     git -C /repo checkout -- .
